@@ -3,6 +3,8 @@
 package main
 
 import (
+	"runtime/pprof"
+	"time"
 	"flag"
 	"fmt"
 	"os"
@@ -32,6 +34,16 @@ func main() {
 	list := flag.Bool("list", false, "list implemented properties")
 	debug := flag.String("debug", "", "debug query, e.g. reach:<pkgpath>:<func> or reach:<pkgpath>:<Type>.<method>")
 	flag.Parse()
+	if pf := os.Getenv("GEDCHECK_PROF"); pf != "" {
+		f, _ := os.Create(pf)
+		pprof.StartCPUProfile(f)
+		go func() {
+			time.Sleep(20 * time.Second)
+			pprof.StopCPUProfile()
+			f.Close()
+			os.Exit(3)
+		}()
+	}
 	if *debug != "" {
 		props.Debug(*debug)
 		return
